@@ -194,9 +194,6 @@ theorem C20_failed_is_final (S : Spec) (s : State) (ev : Event) (h : s.failed.is
 
 /-! ## fragmentation -/
 
-theorem recvChunk_append (p r : Party) (a b : List Nat) :
-    recvChunk p r (a ++ b) = recvChunk p r a ++ recvChunk p r b := by simp [recvChunk]
-
 /-- however a party's data is cut into `receive()` calls, the events — hence every later state and
     extraction result — are those of one call with the whole data (`add_receive` stores characters) -/
 theorem C20_fragmentation_irrelevant (p r : Party) (chunks : List (List Nat)) (w : List Nat)
@@ -210,6 +207,38 @@ theorem C20_chunking_same_state (S : Spec) (s : State) (p r : Party) (chunks : L
     (rest : List Event) :
     runEvents S s (chunks.flatMap (recvChunk p r) ++ rest) = runEvents S s (recvChunk p r chunks.flatten ++ rest) := by
   rw [C20_fragmentation_irrelevant p r chunks _ rfl]
+
+/-- arrival interleaving, at event level: data that arrives while an extraction is reading does not
+    disturb it — feeding the next fragment and then receiving `f` gives the same state as receiving `f`
+    first (so every recv can be moved in front of the extraction steps it interleaves with) -/
+theorem C20_recv_commutes_with_exStep (S : Spec) (s s1 s2 : State) (f : Frag)
+    (h1 : step S s .exStep = some s1) (h2 : step S s (.recv f) = some s2) :
+    ∃ s3, step S s2 .exStep = some s3 ∧ step S s1 (.recv f) = some s3 := by
+  simp only [step] at h1 h2
+  split at h2
+  · rename_i hc2
+    injection h2 with h2; subst h2
+    split at h1
+    · rename_i e he
+      split at h1
+      · rename_i hc1
+        split at h1
+        · rename_i i d hfn
+          injection h1 with h1; subst h1
+          have hfn' := findNext_append e.sender s.buffer f e.pos (i, d) hfn
+          have hl : live s = true := hc1.1
+          refine ⟨{ s with buffer := s.buffer ++ [f], recvd := s.recvd ++ [f],
+                           ex := some { e with avail := (feedTypes S i (e.word ++ [d]) e.avail e.compl).1,
+                                               compl := (feedTypes S i (e.word ++ [d]) e.avail e.compl).2,
+                                               pos := i + 1, word := e.word ++ [d] } }, ?_, ?_⟩
+          · simp only [step, he]
+            rw [if_pos ⟨by simpa [live] using hl, hc1.2⟩, hfn']
+          · simp only [step]
+            rw [if_pos ⟨by simpa [live] using hl, hc2.2⟩]
+        · simp at h1
+      · simp at h1
+    · simp at h1
+  · simp at h2
 
 /-! ## (3) the recipient of a remote message -/
 
